@@ -137,6 +137,8 @@ func (v *PacketDslVisitorImpl) VisitPacketDefinition(ctx *gen.PacketDefinitionCo
 	var fieldMap = make(map[string]*model.Field)
 	var lengthField *model.Field
 	var matchFields = make(map[string][]model.MatchPair)
+	// where each kept field is declared, for the diagnostics of the second pass
+	var declared = make(map[*model.Field]gen.IFieldDefinitionWithAttributeContext)
 	for _, fctx := range ctx.AllFieldDefinitionWithAttribute() {
 		if fc, ok := fctx.(*gen.FieldDefinitionWithAttributeContext); ok {
 			fd := v.VisitFieldDefinitionWithAttribute(fc)
@@ -168,6 +170,7 @@ func (v *PacketDslVisitorImpl) VisitPacketDefinition(ctx *gen.PacketDefinitionCo
 
 			fields = append(fields, fld)
 			fieldMap[fld.Name] = fld
+			declared[fld] = fctx
 
 			if mf, ok := fld.Attr.(*model.MatchFieldAttribute); ok {
 				matchFields[mf.MatchKeyField.Name] = mf.MatchPairs
@@ -188,9 +191,19 @@ func (v *PacketDslVisitorImpl) VisitPacketDefinition(ctx *gen.PacketDefinitionCo
 				c.RefPacket = v.BinModel.PacketsMap[c.PacketName]
 			}
 		case *model.LengthFieldAttribute:
+			target, ok := fieldMap[c.TragetField.Name]
+			if !ok {
+				v.BinModel.AddSyntaxError(&model.SyntaxError{
+					Line:            declared[f].GetStart().GetLine(),
+					Column:          declared[f].GetStart().GetTokenSource().GetCharPositionInLine(),
+					Msg:             "Unknown length target " + c.TragetField.Name + " for field " + f.Name,
+					OffendingSymbol: nil,
+				})
+				target = c.TragetField
+			}
 			f.Attr = &model.LengthFieldAttribute{
 				LengthType:  f.GetType(),
-				TragetField: fieldMap[c.TragetField.Name],
+				TragetField: target,
 			}
 		case *model.MatchFieldAttribute:
 			c.MatchKeyField = fieldMap[c.MatchKeyField.Name]
